@@ -64,6 +64,17 @@ type variant struct {
 	kind string
 }
 
+// refUnmarshal runs the reference reader; a panic inside protobuf-go's dynamic reader (seen on damaged map
+// entries) counts as the reference rejecting the input.
+func refUnmarshal(b []byte, d *dynamicpb.Message) (err error) {
+	defer func() {
+		if p := recover(); p != nil {
+			err = fmt.Errorf("reference reader panicked: %v", p)
+		}
+	}()
+	return (proto.UnmarshalOptions{}).Unmarshal(b, d)
+}
+
 func contains(xs []string, x string) bool {
 	for _, y := range xs {
 		if y == x {
@@ -81,7 +92,11 @@ func boundaries(b []byte) []wirex.Item {
 func runC08(t *rapid.T, w *rep.Worker) {
 	typ := corpus.All[rapid.IntRange(0, len(corpus.All)-1).Draw(t, "type")]
 	src := typ.New()
-	corpus.Populate(t, corpus.Wrap(src), 0)
+	if rapid.Bool().Draw(t, "sparse") {
+		corpus.PopulateSparse(t, corpus.Wrap(src), rapid.IntRange(1, 3).Draw(t, "nsparse"))
+	} else {
+		corpus.Populate(t, corpus.Wrap(src), 0)
+	}
 	orig := corpus.Encode(corpus.Wrap(src))
 	md, err := corpus.SchemaDescriptor(src)
 	if err != nil {
@@ -91,7 +106,7 @@ func runC08(t *rapid.T, w *rep.Worker) {
 	w.MixS(typ.String())
 	w.MixS(string(orig))
 	var vars []variant
-	exhaustive := len(orig) > 0 && len(orig) <= 48 && rapid.Bool().Draw(t, "exhaustive")
+	exhaustive := len(orig) > 0 && len(orig) <= 160 && rapid.IntRange(0, 2).Draw(t, "exhaustive") != 0
 	if exhaustive {
 		vars = append(vars, variant{orig, "valid", "valid"})
 		for k := 0; k < len(orig); k++ {
@@ -103,6 +118,7 @@ func runC08(t *rapid.T, w *rep.Worker) {
 			}
 		}
 	} else {
+		vars = append(vars, variant{orig, "valid", "valid"})
 		b := orig
 		desc := ""
 		kind := "valid"
@@ -229,12 +245,18 @@ func runC08(t *rapid.T, w *rep.Worker) {
 			w.Violate("alloc-out-of-proportion|"+typ.Runtime, fmt.Sprintf("%s input %x (%d bytes, %s): generated Unmarshal allocated %d bytes (limit %d)", typ, v.b, len(v.b), v.desc, al, limit))
 			break
 		}
+		d := dynamicpb.NewMessage(md)
+		rerr := refUnmarshal(v.b, d)
 		if g.err != nil {
 			w.Probe("generated_rejects")
+			if v.kind == "valid" && rerr == nil {
+				// the generated reader rejects a canonical encoding the reference accepts: a pure function of the
+				// input (C06's encoding clause, not claimed; C08 lets a reader reject) - counted, not judged
+				w.Probe("undamaged_message_rejected_by_generated_reader(not judged)")
+			}
 			continue
 		}
-		d := dynamicpb.NewMessage(md)
-		if err := (proto.UnmarshalOptions{}).Unmarshal(v.b, d); err != nil {
+		if rerr != nil {
 			w.Probe("reference_rejects_generated_accepts(not judged)")
 			continue
 		}
